@@ -151,7 +151,12 @@ func (e *Exec) execInstr(fr *frame, st *State, in ssa.Instruction) {
 	case *ssa.DebugRef:
 	case *ssa.Send:
 		e.Outs = append(e.Outs, OutEvent{Guard: st.G, Chan: "chan-send@" + where, Text: e.get(st, x.X)})
-	case *ssa.SliceToArrayPointer, *ssa.Select, *ssa.MakeChan, *ssa.MultiConvert:
+	case *ssa.Select:
+		e.selectOp(st, x, where)
+	case *ssa.MakeChan:
+		id := e.newObj(st, nil, &Opaque{What: "chan"})
+		st.Regs[x] = &Ptr{Obj: id}
+	case *ssa.SliceToArrayPointer, *ssa.MultiConvert:
 		e.unsupported(st, fmt.Sprintf("instruction %T at %s", in, where))
 		if v, ok := in.(ssa.Value); ok {
 			st.Regs[v] = &Poison{Why: fmt.Sprintf("%T", in)}
